@@ -203,6 +203,14 @@ mod dictionary {
                 self.bytes += 1;
                 output.push([*b].as_slice())
             } else {
+                // A literal is decoded by looking at its first byte: if that byte is a
+                // dictionary tag the literal would read back as the dictionary entry.
+                assert!(
+                    bytes
+                        .first()
+                        .map_or(true, |b| self.decode.get((*b).into()).is_none()),
+                    "literal starts with a byte that is a dictionary tag"
+                );
                 self.bytes += bytes.len();
                 output.push(bytes)
             };
